@@ -291,7 +291,7 @@ func vC03Stream(msizes []int, k int, nsizes int, nkinds int, chunks []int) {
 
 func VerifC03_StreamQuick() { vC03Stream([]int{4097, 8192}, 3, 5, 2, []int{0, 1500}) }
 func VerifC03_StreamThorough() {
-	vC03Stream([]int{4096, 4097, 8192, 16384, 65536}, 3, 7, 3, []int{0, 1500})
+	vC03Stream([]int{4096, 4097, 8192, 16384}, 3, 7, 3, []int{0, 1500})
 }
 func VerifC03_StreamSmall() { vC03Stream([]int{300}, 3, 7, 3, []int{0, 7}) }
 func VerifC03_Stream4() { vC03Stream([]int{4097, 16384}, 4, 5, 2, []int{0}) }
